@@ -522,6 +522,10 @@ class Program:
         self.debug_assertions = j["debug_assertions"]
         self.overflow_checks = j["overflow_checks"]
         self.features = sorted(c.split("=", 1)[1] for c in j["cfg"] if c.startswith("feature="))
+        # helper functions that the rules do not know by name are expanded into their callers (see inline.py)
+        from .inline import load_baseline, inline_unknown_helpers
+        bl = load_baseline()
+        self.inlined_helpers = inline_unknown_helpers(j, bl) if bl is not None else []
         self.fns = {}
         for fj in j["fns"]:
             f = Fn(fj, self)
